@@ -21,6 +21,8 @@ func checkC01(c *Ctx, r *Report) {
 	checkC07(c, r)
 	r.exhaustive = false
 	checkQRAlnumPair(c, r)
+	checkBitArrayHistories(c, r) // the header and data bits are assembled with AppendBitArray / AppendBits (same obligations as under C16)
+	checkECIRegistry(c, r)        // the ECI designator written is the registered first value, which fits the one byte appendECI writes (also C15)
 	checkQRSegments(c, r)
 	checkQRHeader(c, r)
 	checkQRCounts(c, r)
